@@ -85,7 +85,10 @@ structure Agg where
 partial def loop (hin : IO.FS.Stream) (hout : IO.FS.Stream) (agg : Bool) (st : Agg) : IO Agg := do
   let line ← hin.getLine
   if line.isEmpty then return st
-  let line := if line.endsWith "\n" then (line.dropEnd 1).toString else line
+  -- the harness writes whole lines only; an unterminated fragment at end of input is what is left of a
+  -- line when a generator shard is stopped at a search deadline in mid-write: it is not a case
+  if !line.endsWith "\n" then return st
+  let line := (line.dropEnd 1).toString
   let (v, h) := evalLineV line
   if !agg then
     hout.putStrLn (renderLine v h line)
